@@ -72,3 +72,100 @@ Theorem C01_store_invariant_holds : forall defs dm hist st,
   nodes_entitled defs (sys_final (build_rooms defs) dm st hist) = true.
 Proof. exact local_rows_invariant. Qed.
 Print Assumptions C01_store_invariant_holds.
+
+(* ================= system level, room definitions GROWING (definitions: model/SystemDefs.v; proofs:
+   proofs/SystemDefsP.v) =================
+   The restriction "`defs` fixed along the history" is removed: the definitions are part of the state
+   and `SysGrow R new` appends the entries `new` to room R's entry list, consumed as room.rs' add_*
+   calls consume them (oldest first, a refused call skipped), or creates room R from them. *)
+From DV Require Import SystemDefs SystemDefsP.
+
+(* (5) PAST-STABILITY: appended entries change no decision at date d — any key, entity, right kind —
+   provided those of them the room ACCEPTS (accepted_tail) are all dated strictly after d
+   (group creations carry no date).  For the specification and for the executable room. *)
+Theorem C01_past_grants_stable : forall id evs new d,
+  evs_after d (accepted_tail id evs new) = true ->
+  forall k en t,
+    granted (accepted id (evs ++ new)) k en d t = granted (accepted id evs) k en d t /\
+    can (build id (evs ++ new)) k en d t = can (build id evs) k en d t.
+Proof. exact past_grants_stable. Qed.
+Print Assumptions C01_past_grants_stable.
+
+(* the boundary is exact: room.rs refuses an entry only if it is older than the LAST entry of the SAME
+   key, so (a) an entry dated d itself is accepted and wins the tie; (b) a back-dated FIRST entry of
+   another key is accepted and grants in the past; (c) a back-dated entry of a key with a later entry
+   is refused and changes nothing (hence the condition on the accepted tail only); (d) a back-dated
+   right entry of an entity without entry is accepted and revokes in the past *)
+Example C01_past_grants_boundary_refuted :
+  (snd (build_from (build 1 w_room) [EvUser 1 2 5 false]) = [true] /\
+   evs_after 5 (accepted_tail 1 w_room [EvUser 1 2 5 false]) = false /\
+   evs_after 4 (accepted_tail 1 w_room [EvUser 1 2 5 false]) = true /\
+   can (build 1 w_room) 2 1 5 MutateSelf = true /\
+   can (build 1 (w_room ++ [EvUser 1 2 5 false])) 2 1 5 MutateSelf = false /\
+   granted (accepted 1 w_room) 2 1 5 MutateSelf = true /\
+   granted (accepted 1 (w_room ++ [EvUser 1 2 5 false])) 2 1 5 MutateSelf = false)%N /\
+  (snd (build_from (build 1 w_room) [EvUser 1 3 2 true]) = [true] /\
+   can (build 1 w_room) 3 1 4 MutateSelf = false /\
+   can (build 1 (w_room ++ [EvUser 1 3 2 true])) 3 1 4 MutateSelf = true)%N /\
+  (snd (build_from (build 1 w_room) [EvUser 1 2 4 false]) = [false] /\
+   accepted_tail 1 w_room [EvUser 1 2 4 false] = [] /\
+   evs_after 100 [EvUser 1 2 4 false] = false /\
+   can (build 1 (w_room ++ [EvUser 1 2 4 false])) 2 1 5 MutateSelf = true)%N /\
+  (snd (build_from (build 1 w_room) [EvRight 1 1 3 false false]) = [true] /\
+   can (build 1 (w_room ++ [EvRight 1 1 3 false false])) 2 1 5 MutateSelf = false)%N.
+Proof. exact past_grants_boundary_refuted. Qed.
+Print Assumptions C01_past_grants_boundary_refuted.
+
+(* (6) THE STORE INVARIANT UNDER DEFINITION GROWTH: over any history, of any length, mixing remote
+   ingestion calls, local writes, local deletions (SysStep, as System.sys_do, run against the rooms
+   built from the CURRENT definitions) and growth steps, every stored row stays entitled w.r.t. the
+   current definitions, provided each growth step adds (accepted entries only) entries dated strictly
+   after every row then stored in that room (ghist_rows_ok, evaluated on the state before the step) *)
+Theorem C01_store_invariant_defs_growth_holds : forall dm hist g,
+  g_nodes_entitled g = true ->
+  ghist_rows_ok dm g hist = true ->
+  g_nodes_entitled (gsys_final dm g hist) = true.
+Proof. exact store_invariant_defs_growth. Qed.
+Print Assumptions C01_store_invariant_defs_growth_holds.
+
+(* rows AND references: System.step_stable on the other steps; on a growth step also the creation
+   dates of the references hanging on rows of the room (needed: references_need_their_dates) *)
+Theorem C01_store_all_invariant_defs_growth_holds : forall dm hist g,
+  g_all_entitled g = true ->
+  ghist_stable dm g hist = true ->
+  g_all_entitled (gsys_final dm g hist) = true.
+Proof. exact store_all_invariant_defs_growth. Qed.
+Print Assumptions C01_store_all_invariant_defs_growth_holds.
+
+(* the side condition is NEEDED: the executable room accepts the back-dated "key 2 disabled at 5"
+   (its last entry is dated 3) while row 100 of key 2, written at date 7, is stored: the row is no
+   longer entitled.  Same with a back-dated right entry and with an entry dated as the row; a later
+   entry is harmless.  gverdicts = (initial state entitled, rows side condition, rows+references side
+   condition, final rows entitled, final state entitled) *)
+Example C01_store_invariant_backdated_refuted :
+  gc_answers w_backdated = [[0]; [0; 1]] /\ gverdicts w_backdated = (true, false, false, false, false) /\
+  ghist_rows_ok (gc_dm w_backdated) (gc_init w_backdated) [write_w 2%N 7 1%N 1%N 100%N] = true /\
+  g_nodes_entitled (gsys_final (gc_dm w_backdated) (gc_init w_backdated) [write_w 2%N 7 1%N 1%N 100%N]) = true /\
+  dump (g_store (gc_final w_backdated)) = [1; 1; 0; 0; 0] /\
+  gc_answers w_backdated_right = [[0]; [0; 1]] /\ gverdicts w_backdated_right = (true, false, false, false, false) /\
+  gc_answers w_samedate = [[0]; [0; 1]] /\ gverdicts w_samedate = (true, false, false, false, false) /\
+  gc_answers w_later = [[0]; [0; 1]] /\ gverdicts w_later = (true, true, true, true, true).
+Proof. exact store_invariant_backdated_refuted. Qed.
+Print Assumptions C01_store_invariant_backdated_refuted.
+
+(* non-vacuity: ten steps from the empty store — a write, a growth step revoking key 2 at a later
+   date, a write of key 2 refused after the revocation, a remote row of key 2 dated BEFORE the
+   revocation accepted, one dated after it rejected, a growth step with one accepted and one refused
+   (back-dated) entry, a write accepted again, the creation of a second room, a write there, a
+   deletion by the holder of the all-rows right *)
+Example C01_defs_growth_nonvacuous :
+  gverdicts w_growth_ok = (true, true, true, true, true) /\
+  gc_answers w_growth_ok = [[0]; [0; 1]; [1]; [0; 0]; [0; 1; 104]; [0; 1; 0]; [0]; [2; 1; 1; 1]; [0]; [0]] /\
+  dump (g_store (gc_final w_growth_ok)) = [4; 5; 7; 8; 9;  0;  0;  0] /\
+  g_defs (gc_final w_growth_ok) =
+    [(1, [EvGroup 1; EvUser 1 1 10 true; EvRight 1 0 10 true true;
+          EvGroup 2; EvUser 2 2 10 true; EvRight 2 0 10 true false;
+          EvUser 2 2 30 false; EvUser 2 2 40 true; EvUser 2 2 15 false]);
+     (2, [EvGroup 1; EvUser 1 3 50 true; EvRight 1 0 50 true false])]%N.
+Proof. exact defs_growth_nonvacuous. Qed.
+Print Assumptions C01_defs_growth_nonvacuous.
